@@ -461,7 +461,12 @@ class InMemoryStateStore(Generic[MODEL_T]):
         Returns:
             MODEL_T: A `.model_copy()` of the internal Pydantic model.
         """
-        return self._state.model_copy()
+        snapshot = self._state.model_copy()
+        if isinstance(snapshot, DictLikeModel):
+            # model_copy() shares the private dynamic-field dict: give the
+            # snapshot its own so that changing its keys does not change the store
+            snapshot._data = dict(snapshot._data)
+        return snapshot
 
     async def set_state(self, state: MODEL_T) -> None:
         """Replace or merge into the current state model.
